@@ -121,3 +121,70 @@ def getRows (rows : List (Stored × Stored)) : List Q :=
   rows.filterMap fun (s, i) => substitute s i
 
 end Amisc
+
+namespace Amisc
+
+/-! ### cost accounts (C09): `model_costs`, `misc_costs`, `System.get_allocation`
+
+  * `Component.call_model`: after a model call that reported `model_cost`, for every fidelity `a` of the call
+      `model_costs[a] = nanmean(hstack((costs_of_this_call, model_costs[a])))`            → `updAvg`
+    (the previous AVERAGE enters as one more sample — this is what the code does, not a true running mean);
+  * `Component.activate_index`: `misc_costs[a, b] = model_costs.get(a, 1.) * num_train_pts`   → `bookIndex`
+  * `System.get_allocation`: per booked index `added_eval = round(added_cost / model_costs.get(a, 1.))` with the averages
+    AT REPORT TIME, summed per fidelity                                                        → `allocEvals`, `allocCost`
+-/
+
+/-- one booked index: fidelity, (data part of) beta, number of new points evaluated for it (ghost: the code does not keep
+    it — `get_allocation` has to recover it), cost booked -/
+structure MiscEntry where
+  alpha : Idx
+  beta  : Idx
+  npts  : Nat
+  cost  : Q
+deriving Repr
+
+structure CostAcc where
+  avg  : Idx → Option Q := fun _ => none     -- `model_costs`
+  misc : List MiscEntry := []                -- `misc_costs`, in booking order
+
+/-- `np.nanmean(np.hstack((costs, old)))` -/
+def meanWith (costs : List Q) (old : Option Q) : Q :=
+  qsum (costs ++ old.toList) / ((costs ++ old.toList).length : Q)
+
+/-- update of the average for one fidelity of a call (a call without reported costs for `a` changes nothing) -/
+def updAvg (avg : Idx → Option Q) (a : Idx) (costs : List Q) : Idx → Option Q :=
+  if costs.isEmpty then avg else fun a' => if a' = a then some (meanWith costs (avg a)) else avg a'
+
+/-- `misc_costs[a, b] = model_costs.get(a, 1.) * num_train_pts` -/
+def bookIndex (acc : CostAcc) (a b : Idx) (n : Nat) : CostAcc :=
+  { acc with misc := acc.misc ++ [{ alpha := a, beta := b, npts := n, cost := (acc.avg a).getD 1 * (n : Q) }] }
+
+/-- one activation: `reported` = the costs the model reported in this call, grouped by fidelity; `design` = the indices of
+    the batch with the number of new points each -/
+def bookCall (acc : CostAcc) (reported : List (Idx × List Q)) (design : List (Idx × Idx × Nat)) : CostAcc :=
+  let acc' := { acc with avg := reported.foldl (fun av r => updAvg av r.1 r.2) acc.avg }
+  design.foldl (fun ac d => bookIndex ac d.1 d.2.1 d.2.2) acc'
+
+def runCalls (acc : CostAcc) (calls : List (List (Idx × List Q) × List (Idx × Idx × Nat))) : CostAcc :=
+  calls.foldl (fun ac c => bookCall ac c.1 c.2) acc
+
+/-- Python's `round` on an exact rational: nearest integer, ties to even -/
+def pyRound (x : Q) : Int :=
+  let f := x.num / (x.den : Int)      -- floor (the denominator of a `Rat` is positive)
+  let r := x - (f : Q)
+  if r < 1/2 then f else if r > 1/2 then f + 1 else if f % 2 = 0 then f else f + 1
+
+/-- `get_allocation`: evaluations recovered for one booked index -/
+def entryEvals (acc : CostAcc) (e : MiscEntry) : Int := pyRound (e.cost / (acc.avg e.alpha).getD 1)
+
+/-- reported evaluations / cost of fidelity `a` (`eval_alloc[comp][a]`, `cost_alloc[comp][a]`) -/
+def allocEvals (acc : CostAcc) (a : Idx) : Int := ((acc.misc.filter (·.alpha = a)).map (entryEvals acc)).foldl (· + ·) 0
+def allocCost (acc : CostAcc) (a : Idx) : Q := qsum ((acc.misc.filter (·.alpha = a)).map (·.cost))
+
+/-- ground truth from the model's own reports: number of evaluations made at fidelity `a`, and their total cost -/
+def trueEvals (calls : List (List (Idx × List Q) × List (Idx × Idx × Nat))) (a : Idx) : Nat :=
+  (calls.map fun c => ((c.1.filter (·.1 = a)).map (·.2.length)).sum).sum
+def trueCost (calls : List (List (Idx × List Q) × List (Idx × Idx × Nat))) (a : Idx) : Q :=
+  qsum (calls.map fun c => qsum ((c.1.filter (·.1 = a)).map fun r => qsum r.2))
+
+end Amisc
